@@ -88,6 +88,11 @@ def histories(ctx, rng, quick):
         for _ in range(cnt):
             lines.append(long_history(rng, n, nk, mm))
             nl += 1
+    # bulk loads across the level boundaries of every capacity pair (asymmetric pairs need a few hundred keys for three levels), then a few calls
+    for nb in ([25, 26, 64, 100, 176, 181, 200, 300, 420] if quick else list(range(20, 900, 11))):
+        ks = [rng.randint(1, max(2, nb // 2)) for _ in range(nb)] if nb % 2 else list(range(1, nb + 1))
+        lines.append("B 1 %d %s Y O 1 %d I 2 %d X 1 %d M E 1 %d S B 2 %d %s" % (nb, " ".join(map(str, ks)), max(1, nb // 4), nb + 3, nb // 3, max(1, nb // 5), min(nb, 40), " ".join(map(str, ks[:40]))))
+        nl += 1
     ctx.cov["seeded_long_histories"] = nl
     return lines, "P " + " ".join(map(str, range(0, 11)))
 
